@@ -3,8 +3,9 @@
 SPEC = dict(
     harness=['h_fuzzy.c', 'h_fuzzy_ext.c'],
     # the default (double) build runs the full harness; the other two real widths run a compact type-generic companion
-    configs=lambda tier: [dict(name='f64'), dict(name='f32', real=4, harness=['h_fuzzy_w.c']), dict(name='f80', real=16, harness=['h_fuzzy_w.c'])],
-    parallel_configs=3,
+    configs=lambda tier: [dict(name='f64'), dict(name='f32', real=4, harness=['h_fuzzy_w.c']), dict(name='f80', real=16, harness=['h_fuzzy_w.c']),
+                          dict(name='cxx', harness=['h_cxxw.c', 'h_cxxw_shim.cc'], hflags=['-DVF_CXXW=13'], nworkers=4)],
+    parallel_configs=4,
     level='exploration',
     rule='three monitor groups. MF: for each of the 13 a_mf_* families, parameter tuples are drawn per degeneracy class (all '
          'equal-neighbour patterns a=b, b=c, c=d, ... of the piecewise-linear families, flanks a few ulps wide, c1=c2, slope-sign '
@@ -22,7 +23,7 @@ SPEC = dict(
          'magnitude bucket of a x bucket of b; PID: operator, order, table kinds, number of active e sets, number of active ec sets, '
          'outcome) - NOT the number of evaluations.',
     exhaustive={'quick': None, 'thorough': None},
-    require=['mf-range-extreme-parameters', 'w-fuzzy-gains-weighted-mean', 'w-mf-range', 'w-mf-pairs-complementary', 'mf-range', 'mf-core-one', 'mf-support-zero', 'mf-formula', 'mf-monotone', 'mf-continuity', 'mf-s+z=1', 'mf-lins+linz=1',
+    require=['mf-range-extreme-parameters', 'bfuzz-macro-with-expression-argument', 'a_pid_fuzzy::set_kpid', 'a_pid_fuzzy::set_rule', 'a_pid_fuzzy::pos', 'w-fuzzy-gains-weighted-mean', 'w-mf-range', 'w-mf-pairs-complementary', 'mf-range', 'mf-core-one', 'mf-support-zero', 'mf-formula', 'mf-monotone', 'mf-continuity', 'mf-s+z=1', 'mf-lins+linz=1',
              'mf-dispatcher', 'op-commutative', 'op-formula', 'op-class-bound', 'op-monotone', 'op-boundary', 'op-inline==exported',
              'op-pid-selector', 'op-not', 'op-equ_', 'pid-bfuzz-layout', 'pid-opr-default', 'pid-partition-bound-2',
              'pid-gain-base-when-nothing-fires', 'pid-gain-finite', 'pid-gain-in-consequent-range', 'pid-gain-weighted-mean'],
